@@ -247,3 +247,87 @@ Theorem C18_split_write_refuted :
               In t (st_ths s) /\ ~ obs_consistent lay2 (t_obs t).
 Proof. exact split_write_refuted. Qed.
 Print Assumptions C18_split_write_refuted.
+
+Require Import Verif.Check.C18_check Verif.Proofs.JudgeSoundC18P.
+(* ---- the executable properties of Check/C18_check.v are the property (judge soundness) ---- *)
+(* Per sink: the model's own output passes the executable property (the judge cannot raise code 2 on a case where the
+   implementation agrees with the model), and ANY output the executable property accepts satisfies the property clause
+   (hreads / hread_prop / reader_prop / hconc_view / bm_prop / conv_prop / converted: Proofs/JudgeSoundC18P.v). *)
+
+(* hseq: every read of a home-chain history answers all getters from the views of ONE configuration, the most recently
+   fetched one; Ready = polling; health = the history-level health (C18_snapshot_home, C18_health_exact_home) *)
+Theorem C18_judge_hseq_model_passes : forall i, hseq_ok i (hseq_model i) = true.
+Proof. exact hseq_model_passes. Qed.
+Print Assumptions C18_judge_hseq_model_passes.
+
+Theorem C18_judge_hseq_sound : forall i o, hseq_ok i o = true -> Forall2 hread_prop (hreads [] i) o.
+Proof. exact hseq_sound. Qed.
+Print Assumptions C18_judge_hseq_sound.
+
+(* hconc: the judge's model is the constant ([], []); every view a concurrent reader saw is a view of the initial state
+   or of home_derive of ONE polled configuration, one struct copy is one snapshot, a reader never goes back *)
+Theorem C18_judge_hconc_model_passes : forall i, hconc_ok i (@nil hitem, @nil (list (list N))) = true.
+Proof. exact hconc_model_passes. Qed.
+Print Assumptions C18_judge_hconc_model_passes.
+
+Theorem C18_judge_hconc_sound : forall i table readers,
+  hconc_ok i (table, readers) = true ->
+  exists idx : list N,
+    Forall2 (fun it k => exists v, nth_error (home_init :: map (fun es => home_derive (home_convert es)) i) (N.to_nat k) = Some v /\
+                                   hconc_view i v /\ hitem_is v it) table idx /\
+    Forall (reader_prop idx) readers.
+Proof. exact hconc_sound. Qed.
+Print Assumptions C18_judge_hconc_sound.
+
+(* rseq: the same for the RMN-home poller (C18_snapshot_rmn, C18_health_exact_rmn) *)
+Theorem C18_judge_rseq_model_passes : forall i, rseq_ok i (rseq_model i) = true.
+Proof. exact rseq_model_passes. Qed.
+Print Assumptions C18_judge_rseq_model_passes.
+
+Theorem C18_judge_rseq_sound : forall i o, rseq_ok i o = true -> Forall2 rread_prop (rreads [] i) o.
+Proof. exact rseq_sound. Qed.
+Print Assumptions C18_judge_rseq_sound.
+
+Theorem C18_judge_rconc_model_passes : forall i, rconc_ok i (@nil ritem, @nil (list (list N))) = true.
+Proof. exact rconc_model_passes. Qed.
+Print Assumptions C18_judge_rconc_model_passes.
+
+Theorem C18_judge_rconc_sound : forall i table readers,
+  rconc_ok i (table, readers) = true ->
+  exists idx : list N,
+    Forall2 (fun it k => exists v, nth_error (rconc_cands i) (N.to_nat k) = Some v /\ rconc_view i v /\ ritem_is v it)
+            table idx /\
+    Forall (reader_prop idx) readers.
+Proof. exact rconc_sound. Qed.
+Print Assumptions C18_judge_rconc_sound.
+
+(* bitmap: an accepted output code is bit j of a valid bitmap, and a refusal (>= 2) wherever C18_bitmap_refusals
+   demands one (bm_prop = the clauses of C18_bitmap and C18_bitmap_refusals for an arbitrary output) *)
+Theorem C18_judge_bm_model_passes : forall i, bm_ok i (bm_model i) = true.
+Proof. exact bm_model_passes. Qed.
+Print Assumptions C18_judge_bm_model_passes.
+
+Theorem C18_judge_bm_sound : forall b j n o, bm_ok (b, j, n) o = true -> bm_prop b j n o.
+Proof. exact bm_sound. Qed.
+Print Assumptions C18_judge_bm_sound.
+
+(* conv: an accepted answer holds exactly the non-empty digests, once each, and every entry satisfies the conclusion of
+   C18_node_ids for the versioned config carrying its digest (conv_prop / converted); with a valid committee and valid
+   bitmaps that is the conclusion of C18_observers, bit for bit *)
+Theorem C18_judge_conv_model_passes : forall i, conv_ok i (conv_model i) = true.
+Proof. exact conv_model_passes. Qed.
+Print Assumptions C18_judge_conv_model_passes.
+
+Theorem C18_judge_conv_sound : forall a c m, conv_ok (a, c) (Ok m) = true -> conv_prop a c m.
+Proof. exact conv_sound. Qed.
+Print Assumptions C18_judge_conv_sound.
+
+Theorem C18_judge_conv_sound_bits : forall vc hc, converted vc hc ->
+  (1 <= length (vc_nodes vc) <= 256)%nat ->
+  (forall ch, In ch (vc_chains vc) -> exists b, rc_bitmap ch = Some b /\ (0 <= b < 2 ^ Z.of_nat (length (vc_nodes vc)))%Z) ->
+  forall j nd, nth_error (hc_nodes hc) j = Some nd ->
+    hn_id nd = N.of_nat j /\
+    forall x, In x (hn_chains nd) <->
+              exists ch b, In ch (vc_chains vc) /\ rc_sel ch = x /\ rc_bitmap ch = Some b /\ Z.testbit b (Z.of_nat j) = true.
+Proof. exact converted_bits. Qed.
+Print Assumptions C18_judge_conv_sound_bits.
